@@ -27,7 +27,7 @@ class Rb:
         self.names = [f['name'] for f in adt['variants'][0]['fields']]
         need = ['finger_press_high_boundary', 'error_const', 'current_val', 'finger_is_pressing', 'finger_just_pressed',
                 'finger_just_released', 'buff', 'num_to_ignore_up_front', 'num_to_discard_at_end'] + list(COUNTERS)
-        miss = [n for n in need if n not in self.names]
+        miss = [n for n in need if n not in set(self.names) | set(adt.get('canon_paths') or {})]
         if miss:
             raise InterpError('RibbonController fields missing (anchor changed): %s' % miss)
 
@@ -60,7 +60,7 @@ class Rb:
 
         def setb(name, v):
             if v is not None:
-                rc.fields[rc.names.index(name)] = BoolV(bconst(v))
+                rc.set(name, BoolV(bconst(v)))
         setb('finger_is_pressing', pressing)
         setb('finger_just_pressed', jp)
         setb('finger_just_released', jr)
@@ -211,7 +211,7 @@ def check_edges_and_value(res, facts, prop):
     # class invariant of the stored value: 0 <= current_val = w * boundary with w in [0,1) (0 <= E(a) <= a < boundary, below)
     b = rc.get('finger_press_high_boundary').term
     w = st.ctx.sym_range('w', 0, 1)
-    rc.fields[rc.names.index('current_val')] = Num(w * b, 'f32')
+    rc.set('current_val', Num(w * b, 'f32'))
     pre = copy.deepcopy(rc)
     outs, cell = run_method(it, st, RCF + 'value', rc, [], genv={'BUFFER_CAPACITY': N})
     res.absorb(it)
